@@ -78,8 +78,8 @@ class Cx:
 # ----------------------------------------------------------------------
 def down_method(n):
     """'next'/'error'/'complete'/'is_finished' if node is a downstream (unresolved) observer call"""
-    if n['kind'] != 'call':
-        return None
+    if n['kind'] != 'call' or n.get('body'):
+        return None   # (a call resolved to a body in this crate is not a downstream call)
     return OBS_METHODS.get(n['name'])
 
 
